@@ -81,6 +81,10 @@ def corpus_cases():
         c.probe_steps = universe.add_probes(c, c.cfg.target, ["d", "e", "f", "g", "m", "zz"], depth=2,
                                             extra=[("d", "e", "h"), ("d", "e", "in"), ("g", "zz", "d")])
         cases.append(c)
+    for c in hist.neighbour_name_cases("c03", ["mem", "alt_mem", "ovl_mm", "ovl_m"]):
+        c.probe_steps = universe.add_probes(c, c.cfg.target, ["docs", "readme", "deep", "docs.d"], depth=2,
+                                            extra=[("docs", "deep", "er"), ("docs", "deep", "er", "f"), ("docs.d", "inner")])
+        cases.append(c)
     return cases
 
 
